@@ -157,7 +157,7 @@ def run_case(spec):
             rec.worst("splitting_defect_over_unit", err / unit)
             if err > unit:
                 rec.violate("splitting_composition", "increment_differs_from_drift_kick_composition", feats, err=err, unit=unit)
-            if abs(float(dTl - dtref)) > 64 * eps * max(1.0, abs(float(h))):
+            if abs(float(dTl - dtref)) > 64 * max(eps, 2.3e-16) * info["stages"] * max(1.0, abs(float(h))):   # class tableau is float64: sum of drifts = 1 to float64 rounding
                 rec.violate("splitting_time", "dTime_differs_from_sum_of_drifts", feats, dT=dTf, ref=float(dtref))
         else:
             k = np.asarray(intg.stage_values)
